@@ -89,6 +89,52 @@ def canon_padded(res):
     return out
 
 
+def index_checks(res):
+    """queries that rely on the tables being sorted/indexed as declared: every parameter table ascending by id, `where(id=k)` returns exactly
+    the row with that id, the interactions of a triple are found through the index, filter_env / where_fin leave consistent tables.
+    -> list of (sig-suffix, text)"""
+    probs = []
+    canon_rows = lambda rows: [canon_row(r) for r in rows]
+    for name, tbl, idcol in (("envs", res.environments, "environment_id"), ("lrns", res.learners, "learner_id"), ("vals", res.evaluators, "evaluator_id")):
+        rows = list(tbl.to_dicts())
+        ids = [r[idcol] for r in rows]
+        if ids != sorted(ids):
+            probs.append((name + ":unsorted", "%s table (declared indexed by %s) has ids in the order %s" % (name, idcol, ids)))
+        for k in ids:
+            got = canon_rows(tbl.where(**{idcol: k}).to_dicts())
+            want = canon_rows([r for r in rows if r[idcol] == k])
+            if got != want or len(got) != 1:
+                probs.append((name + ":where-id", "%s.where(%s=%r) returns %s, the table holds %s for that id (ids in table order: %s)" % (name, idcol, k, json.dumps(got)[:200], json.dumps(want)[:200], ids)))
+    it = res.interactions
+    rows = list(it.to_dicts())
+    seen = []
+    for r in rows:
+        key = (r["environment_id"], r["learner_id"], r["evaluator_id"])
+        if key not in seen:
+            seen.append(key)
+    for (e, l, v) in seen:
+        got = canon_rows(it.where(environment_id=e).where(learner_id=l).where(evaluator_id=v).to_dicts())
+        want = canon_rows([r for r in rows if (r["environment_id"], r["learner_id"], r["evaluator_id"]) == (e, l, v)])
+        if got != want:
+            probs.append(("ints:where-ids", "interactions.where(environment_id=%r).where(learner_id=%r).where(evaluator_id=%r) returns %d rows, the table holds %d" % (e, l, v, len(got), len(want))))
+    env_ids = [r["environment_id"] for r in res.environments.to_dicts()]
+    for k in env_ids:
+        sub = res.filter_env(environment_id=k)
+        sids = [r["environment_id"] for r in sub.environments.to_dicts()]
+        n_int = len([1 for r in sub.interactions.to_dicts()])
+        bad_int = [r["environment_id"] for r in sub.interactions.to_dicts() if r["environment_id"] != k]
+        if sids != [k] or bad_int or n_int != len([1 for r in rows if r["environment_id"] == k]):
+            probs.append(("filter_env", "filter_env(environment_id=%r): environments %s, %d interactions (%d expected), foreign interaction rows %s" % (
+                k, sids, n_int, len([1 for r in rows if r["environment_id"] == k]), bad_int[:5])))
+    if rows:
+        fin = res.where_fin(None, "learner_id", "environment_id")
+        fe = [r["environment_id"] for r in fin.environments.to_dicts()]
+        fi = sorted({r["environment_id"] for r in fin.interactions.to_dicts()})
+        if len(fe) != len(set(fe)) or sorted(fe) != fi:
+            probs.append(("where_fin", "where_fin(None,'learner_id','environment_id'): environments table has ids %s, its interactions use %s" % (fe, fi)))
+    return probs
+
+
 def canon_result(res):
     return {
         "exp": canon_val(dict(res.experiment)),
@@ -268,6 +314,17 @@ def run_impl(case):
     r1, x1, m1, _ = run_route(case, None)
     out["nofile"] = canon_result(r1) if r1 is not None else {"raised": x1}
     logs["nofile"] = m1
+    logs["index"] = {}
+
+    def idx(route, r):
+        if r is None:
+            return
+        try:
+            with _Ctx():
+                logs["index"][route] = index_checks(r)
+        except Exception as ex:
+            logs["index"][route] = [("raised", "an indexed query on the Result of route %s raised %s: %s" % (route, type(ex).__name__, str(ex)[:200]))]
+    idx("nofile", r1)
     d = tempfile.mkdtemp(prefix="c07_")
     try:
         sub, base = FNAME_SHAPES[fname_shape(case)]
@@ -288,10 +345,12 @@ def run_impl(case):
         out["file"] = canon_result(r2) if r2 is not None else {"raised": x2}
         logs["file"] = m2
         logs["padded"] = canon_padded(r2) if r2 is not None else None
+        idx("file", r2)
         try:
             with _Ctx():
                 r3 = Result.from_file(path)
             out["from_file"] = canon_result(r3)
+            idx("from_file", r3)
         except Exception as ex:
             out["from_file"] = {"raised": type(ex).__name__}
     finally:
@@ -810,7 +869,10 @@ _SUR_LO, _SUR_HI = chr(0xDC80), chr(0xD800)
 AWKWARD_STRS = [_SUR_LO + "abc", "caf" + chr(0xDCE9) + ".csv", _SUR_HI, chr(0xDFFF) + chr(0xD800), "x" + chr(0xD83D), chr(0) , "a" + chr(0) + "b",
                 chr(0x2028) + chr(0x2029), chr(0x85) + chr(0x1C), chr(0x10000) + chr(0x1F600), chr(0xFEFF) + "bom", chr(0xFFFF), chr(0x0B) + chr(0x0C)]
 STR_POOL = ["", "a", "x y", "é", "naïve\n", "line1\nline2", "\r\n", "tab\tq\"uote\\", "\u2028sep", "\U0001F600", "NaN", "1", "null", " lead", "ü" * 3, "\x7f\x01"] + AWKWARD_STRS
-ROW_STR_KEYS = ["reward", "a", "b", "c d", "é\n", "rewards", "action", "probability", "Z", "k9", "k" + _SUR_LO, chr(0) + "z", "p" + chr(0x2028), chr(0x1F600) + "k"]
+ROW_STR_KEYS = ["reward", "a", "b", "c d", "é\n", "rewards", "action", "probability", "Z", "k9", "k" + _SUR_LO, chr(0) + "z", "p" + chr(0x2028), chr(0x1F600) + "k",
+                # names that contain / extend the special ones ('rewards' is the only column exempt from the tuple conversion; the id columns are overwritten)
+                "past_rewards", "summary rewards", "eval_rewards", "learn_rewards", "rewards2", "Rewards", "reward_", "xreward", "my index", "index2", "environment_id2",
+                "x_learner_id", "evaluator_ids", "_packed", "_n"]
 PARAM_STR_KEYS = ["a", "b", "learning_rate", "seed", "é", "x y", "args", "n\n", "type", "f" + _SUR_LO, "n" + chr(0), chr(0x2029) + "p"]
 
 
@@ -1137,6 +1199,9 @@ class C07(Property):
         tags = []
         impl, logs = run_impl(case)
         fails = check_property(case, impl)
+        for route, probs in sorted((logs.get("index") or {}).items()):
+            for sfx, text in probs[:3]:
+                fails.append(F("B", "route %s: %s" % (route, text), "index:" + sfx))
         eid, lid, vid = assign_ids(case)
         fail = set(map(tuple, case.get("fail", [])))
         done = [tuple(t) for t in case["triples"] if tuple(t) not in fail]
